@@ -265,3 +265,71 @@ Example C09_vertex_wrapper_propagates_panic :
   vertex_res (A := unit) (SP := unit) (TR := unit) (V := unit) (fun _ => Panic) (fun l => Ok ([], l))
              (fun _ => Ok tt) (fun l => Ok (None, l)) (Ok [tt]) = Panic.
 Proof. reflexivity. Qed.
+
+(* ===== end-to-end model (coq/Event/E2E.v): the run number and the RAW (bank name bytes, data bytes) list, decoded by
+   the models of C02-C06/C08, calibrated with the tables regenerated into Gen/Calib.v, assembled by Event.build. The only
+   hypothesis left is that the data are bytes. ===== *)
+From Coq Require Import Permutation.
+From AG Require Import Base.Prelude Base.Res Base.Bytes Ident.Tables.
+From AG Require Codec.Adc Codec.Chunk Codec.Reasm Codec.Pwb Codec.Trg Ident.Names Ident.Maps.
+From AG Require Import Event.Event Event.EventSpec Event.E2E Event.E2E_proofs.
+
+(* =============================================================================================== C09 *)
+(* (a) the typing hypotheses of every Event theorem hold of the real decoders, maps and calibration tables:
+   wire index < 256 and pad < (32, 576) from the map theorems, i16 baselines by computation over Gen/Calib.v,
+   i16 samples from ADC / PWB exactness, no repeated channel in channels_sent from the ascending mask bits *)
+Theorem C09_e2e_env_typed : forall (F : Type) (gain_of : Z * Z -> F) (m : ovf) (run : N), env_typed (env_e2e_m gain_of m run).
+Proof. intros F gain_of. exact (e2e_env_typed_m F (fun _ g => g) gain_of). Qed.
+Print Assumptions C09_e2e_env_typed.
+
+Theorem C09_e2e_banks_typed : forall (m : ovf) (banks : list (list N * list N)),
+  Forall bytes (map snd banks) -> banks_typed (decode_banks_m m banks).
+Proof. exact e2e_banks_typed_m. Qed.
+Print Assumptions C09_e2e_banks_typed.
+
+(* (b) every main event yields a result: for ALL run numbers, ALL raw bank lists (any names, any bytes), both
+   overflow modes and every HashMap iteration order the composed model returns Ok or Err, never a panic *)
+Theorem C09_e2e_build_total : forall (F : Type) (fcal : Z -> F -> F) (gain_of : Z * Z -> F) (m : ovf) (run : N) (banks : list (list N * list N))
+    (order : list (list chunkv) -> list (list chunkv)),
+  Forall bytes (map snd banks) -> try_from_banks_model fcal gain_of m run banks order <> Panic.
+Proof. exact e2e_build_total. Qed.
+Print Assumptions C09_e2e_build_total.
+
+(* a build with overflow checks and one without give the same result, decoders and reassembly included *)
+Theorem C09_e2e_build_no_wrap : forall (F : Type) (fcal : Z -> F -> F) (gain_of : Z * Z -> F) (run : N) (banks : list (list N * list N))
+    (order : list (list chunkv) -> list (list chunkv)),
+  Forall bytes (map snd banks) ->
+  try_from_banks_model fcal gain_of Checked run banks order = try_from_banks_model fcal gain_of Wrapping run banks order.
+Proof. exact e2e_build_no_wrap. Qed.
+Print Assumptions C09_e2e_build_no_wrap.
+
+Theorem C09_e2e_mode_irrelevant : forall (F : Type) (fcal : Z -> F -> F) (gain_of : Z * Z -> F) (m : ovf) (run : N) (banks : list (list N * list N))
+    (order : list (list chunkv) -> list (list chunkv)),
+  Forall bytes (map snd banks) ->
+  try_from_banks_model fcal gain_of m run banks order =
+  build fcal (env_e2e gain_of run) m order (map (fun nd => decode_bank (fst nd) (snd nd)) banks).
+Proof. exact e2e_mode_irrelevant. Qed.
+Print Assumptions C09_e2e_mode_irrelevant.
+
+(* the environment record has no room for a panic of a component (Panic is mapped to DErr in Event/E2E.v);
+   nothing is hidden by that: no component panics - the name parser on any &str, the decoders on any bytes, the
+   reassembly on any chunks that decoded, waveform_at on every sent channel, the maps on every channel id *)
+Theorem C09_e2e_components_never_panic : forall m : ovf,
+  (forall name, Names.utf8b name = true -> Names.parse_main name <> Panic) /\
+  (forall data, bytes data -> Adc.adc_decode adc_macs m data <> Panic /\
+                              Chunk.chunk_decode pwb_devices m data <> Panic /\ Trg.trg_decode data <> Panic) /\
+  (forall cs ks, chunks_of_views m cs = Some ks ->
+     Reasm.reasm pwb_devices m Reasm.isort_by_id Pwb.pwb (Pwb.pwb_decode pwb_macs m) ks <> Panic) /\
+  (forall f c, Pwb.pwb_fields_ok pwb_macs f -> In c (Pwb.p_sent f) -> exists w, Pwb.waveform_at m f c = Ok (Some w)) /\
+  (forall run b ch, ch < 32 -> Maps.wire_position run b ch <> Panic) /\
+  (forall run b a ch, a <= 3 -> 1 <= ch <= 72 -> Maps.pad_position run b a ch <> Panic).
+Proof. exact e2e_components_never_panic. Qed.
+Print Assumptions C09_e2e_components_never_panic.
+
+(* ... and the maps are only ever asked about channel ids in those ranges *)
+Theorem C09_e2e_map_arguments_in_range : forall m : ovf,
+  (forall d p c, bytes d -> adc_view m d = DOk p -> a_chan p = A32 c -> c < 32) /\
+  (forall cs p, reasm_e2e m cs = DOk p ->
+     p_chip p <= 3 /\ forall pc wf, In (Pad pc, wf) (p_sent p) -> 1 <= pc <= 72).
+Proof. intros m. split; [exact (adc_view_chan unit (fun _ g => g) m)|exact (reasm_e2e_args m)]. Qed.
+Print Assumptions C09_e2e_map_arguments_in_range.
